@@ -8,6 +8,7 @@ import Driver.Sort
 import Driver.Exclude
 import Driver.Qualify
 import Driver.Tx
+import Driver.Dev
 open Lean
 
 def dispatch (j : Json) : Json :=
@@ -25,6 +26,7 @@ def dispatch (j : Json) : Json :=
   | "scope" => Driver.handleScope j
   | "tx.plan" => Driver.handleTxPlan j
   | "tx.schema" => Driver.handleTxSchema j
+  | "dev.run" => Driver.handleDevRun j
   | "h1" => Json.mkObj [("h", Atlas.Base.h1 (Driver.unhex (Driver.str j "hex")))]
   | op => Json.mkObj [("err", s!"unknown-op:{op}")]
 
